@@ -12,7 +12,7 @@
 #include <time.h>
 #include <unistd.h>
 
-static int T = -1, nitems_max, thin, e2e, cur_limit;
+static int T = -1, nitems_max, thin, e2e, cur_limit, nl_second;
 static int FT = -1, devnull = -1, T2 = -1, t2_calls;
 static size_t e2e_plain_len = (size_t)-1; static const char *e2e_msg;
 static void check_blackbox_last(const char *want);
@@ -34,6 +34,7 @@ static int build_format(char *fmt, size_t cap)
 	int i; size_t l = 0;
 	for (i = 0; i < nit; i++) {
 		if (IT[i].literal == 1) l += snprintf(fmt + l, cap - l, "x");
+		else if (IT[i].literal == 3) l += snprintf(fmt + l, cap - l, "\n");
 		else if (IT[i].literal == 2) { memset(fmt + l, 'y', 300); l += 300; fmt[l] = 0; }
 		else {
 			l += snprintf(fmt + l, cap - l, "%%%s", IT[i].ralign ? "-" : "");
@@ -54,6 +55,7 @@ static int reference(char *out, size_t cap, const char *msg, uint32_t lineno, ui
 		const char *p = tmp;
 		size_t len, cut;
 		if (IT[i].literal == 1) { if (l + 1 < cap) out[l++] = 'x'; continue; }
+		if (IT[i].literal == 3) { if (l + 1 < cap) out[l++] = '\n'; continue; }
 		if (IT[i].literal == 2) { if (l + 300 < cap) { memset(out + l, 'y', 300); l += 300; } continue; }
 		switch (IT[i].letter) {
 		case 'n': p = "my_function"; break;
@@ -121,13 +123,14 @@ static void run(void)
 	ell = vp_choose(2, "ellipsis");
 	qb_log_ctl(T, QB_LOG_CONF_ELLIPSIS, ell);
 
-	nit = 1 + vp_choose(nitems_max, "number of items");
+	nit = nl_second ? 3 : 1 + vp_choose(nitems_max, "number of items");
 	for (i = 0; i < nit; i++) {
+		if (nl_second && i == 1) { memset(&IT[i], 0, sizeof IT[i]); IT[i].literal = 3; continue; }   /* <item> newline <item> */
 		int nl_letters = (int)strlen(LETTERS) + 1, nw = thin && i == 2 ? 2 : 5;
-		int c = vp_choose(2 + 2 * nw * nl_letters, "item");
+		int c = vp_choose(3 + 2 * nw * nl_letters, "item");
 		memset(&IT[i], 0, sizeof IT[i]);
-		if (c < 2) { IT[i].literal = c + 1; continue; }
-		c -= 2;
+		if (c < 3) { IT[i].literal = c + 1; continue; }     /* 'x', 300 x 'y', a newline in the middle of the format */
+		c -= 3;
 		IT[i].ralign = c % 2; c /= 2;
 		IT[i].width = WIDTHS[(thin && i == 2) ? (c % nw) * 3 : c % nw]; c /= nw;
 		IT[i].letter = c < (int)strlen(LETTERS) ? LETTERS[c] : 0;
@@ -277,6 +280,7 @@ static void init(void)
 	nitems_max = (int)vp_param("max_items", 2, 3);
 	thin = (int)vp_param("thin_third_item", 1, 1);
 	e2e = (int)vp_param("end_to_end", 0, 0);
+	nl_second = (int)vp_param("newline_in_the_middle", 0, 0);
 }
 
 int main(int argc, char **argv)
